@@ -113,6 +113,25 @@ func kvAlphabet() [][]string {
 	}
 }
 
+// kvScripts are deterministic regression histories of repaired defects (GETEX PERSIST, GETRANGE/SUBSTR index
+// clamping, MGET of the empty string, SETRANGE on an absent key): the inputs that used to fail, each followed by
+// the reads that show the repaired effect.
+func kvScripts() [][][]string {
+	return [][][]string{
+		{{"set", "k1", "d", "px", "1000"}, {"getex", "k1", "PERSIST"}, {"pttl", "k1"}, {"get", "k1"}},
+		{{"set", "k1", "d", "ex", "100"}, {"getex", "k1", "persist", "x"}, {"ttl", "k1"}, {"expiretime", "k1"}},
+		{{"set", "k1", "d"}, {"getex", "k1", "Persist", "1"}, {"ttl", "k1"}},
+		{{"set", "k1", "abc"}, {"getrange", "k1", "5", "10"}, {"getrange", "k1", "-7", "100"}, {"substr", "k1", "10", "1"},
+			{"substr", "k1", "2", "-100"}, {"getrange", "k1", "-50", "-100"}, {"getrange", "k1", "-100", "-50"},
+			{"getrange", "k1", "3", "3"}, {"getrange", "k1", "4", "0"}, {"substr", "k1", "-1", "-3"},
+			{"getrange", "k1", "0", "9223372036854775807"}, {"getrange", "k1", "-9223372036854775808", "2"}, {"get", "k1"}},
+		{{"set", "k1", ""}, {"getrange", "k1", "0", "-1"}, {"substr", "k1", "5", "-7"}, {"getrange", "k1", "-1", "1"}},
+		{{"set", "k1", ""}, {"mget", "k1", "k2", "k1"}, {"set", "k2", "0"}, {"mget", "k2", "k1", "k9"}},
+		{{"setrange", "k9", "5", "ab"}, {"get", "k9"}, {"strlen", "k9"}, {"setrange", "k9", "1", "Z"}, {"get", "k9"}},
+		{{"setrange", "k8", "-3", "q"}, {"get", "k8"}, {"setrange", "k7", "0", ""}, {"mget", "k7", "k8"}, {"type", "k7"}},
+	}
+}
+
 // kvBases are the setups from which the exhaustive enumeration starts.
 func kvBases() [][]Op {
 	mk := func(cmds ...[]string) []Op {
@@ -254,5 +273,5 @@ func ListFamily() Family {
 // KvFamily is the generic/string suite.
 func KvFamily() Family {
 	return Family{Name: "kv", Alphabet: kvAlphabet(), Bases: kvBases(), AdvBases: []int{2, 3},
-		Command: func(g *Gen, now int64) []string { return g.KvCommand(now) }}
+		Command: func(g *Gen, now int64) []string { return g.KvCommand(now) }, Scripts: kvScripts()}
 }
